@@ -165,6 +165,7 @@ qb_array_index(struct qb_array * a, int32_t idx, void **element_out)
 			bin_alloced = QB_TRUE;
 		}
 		/* new_bin_cb() needs to be called unlocked so can't extend the lock after the if block */
+		QB_VERIF_POINT(QB_VP_ARRAY_TABLE_READ, a, b, 1);
 		bin = a->bin[b];
 		QB_VERIF_POINT(QB_VP_ARRAY_UNLOCK, a, 0, 0);
 		(void)qb_thread_unlock(a->grow_lock);
@@ -172,6 +173,7 @@ qb_array_index(struct qb_array * a, int32_t idx, void **element_out)
 			a->new_bin_cb(a, b);
 		}
 	} else {
+		QB_VERIF_POINT(QB_VP_ARRAY_TABLE_READ, a, b, 1);
 		bin = a->bin[b];
 		QB_VERIF_POINT(QB_VP_ARRAY_UNLOCK, a, 0, 0);
 		(void)qb_thread_unlock(a->grow_lock);
